@@ -95,9 +95,12 @@ func (m *Mutex) Unlock() {
 	m.owner = nil
 }
 
-// RWMutex without writer preference (a superset of Go's schedules).
+// RWMutex with Go's writer preference: once a writer is blocked in Lock, new
+// RLock calls wait until that writer has come and gone (this is what makes a
+// recursive read lock deadlock when a writer arrives in between).
 type RWMutex struct {
 	w       bool
+	wWait   int // writers blocked in Lock
 	wOwner  *vsched.Thread
 	readers int
 	rOwners []*vsched.Thread
@@ -117,7 +120,13 @@ func (m *RWMutex) Lock() {
 	if s.Unwinding(t) {
 		return
 	}
-	s.Yield(func() bool { return !m.w && m.readers == 0 }, "Lock")
+	s.Yield(nil, "Lock")
+	if m.w || m.readers > 0 {
+		// announce the pending writer, then wait
+		m.wWait++
+		s.Yield(func() bool { return !m.w && m.readers == 0 }, "Lock(wait)")
+		m.wWait--
+	}
 	m.w = true
 	m.wOwner = t
 	t.Held++
@@ -185,7 +194,7 @@ func (m *RWMutex) RLock() {
 	if s.Unwinding(t) {
 		return
 	}
-	s.Yield(func() bool { return !m.w }, "RLock")
+	s.Yield(func() bool { return !m.w && m.wWait == 0 }, "RLock")
 	m.readers++
 	m.rOwners = append(m.rOwners, t)
 	t.Held++
